@@ -216,7 +216,7 @@ func usedAtInitTime(r *vf.Run) {
 					break
 				}
 			}
-			r.Fail("mapper-used-at-init-time", first, map[string]string{"probe": name})
+			r.Fail("in-probe-program:"+strings.SplitN(name, ".", 2)[0], first, map[string]string{"probe": name})
 		} else if err != nil {
 			r.Inconclusive(fmt.Sprintf("init-time probe %s did not run: %v", name, err))
 		} else {
